@@ -390,6 +390,45 @@ def bd_options_oracle(setting, b, d, N, T, seed):
     return None
 
 
+def constrained_kingman_repeat_oracle(rng, seed):
+    """two calls on the SAME population tree object from equal generator states return the same gene tree
+    (repair of the accumulating 'gene_nodes' lists); every gene taxon on exactly one leaf"""
+    import random as _random
+    import dendropy
+    from dendropy.simulate import treesim
+    c18 = _c18()
+    case = c18.gen_case(rng, "quick", "cc")
+
+    def fix(s, root=True):
+        s["len"] = None if root else str(Fraction(rng.choice([1, 1, 2, 3, 4, 6]), rng.choice([1, 2, 4])))
+        s["pop"] = rng.choice([None, "1", "2"])
+        if not s["kids"] and s["taxon"] is None:
+            s["taxon"] = "X%d" % s["sid"]
+        for k in s["kids"]:
+            fix(k, False)
+    fix(case["species"])
+    kw = rng.choice([{}, {}, {"decorate_original_tree": True},
+                     {"gene_sampling_strategy": "fixed_per_population", "num_genes": rng.choice([1, 2])},
+                     {"gene_sampling_strategy": "fixed_per_population", "num_genes": 2, "decorate_original_tree": True}])
+    sp, _sns, _nodes = c18.build_species(case["species"])
+    outs = []
+    for _i in range(3):
+        try:
+            g, _p = treesim.constrained_kingman_tree(sp, rng=_random.Random(seed), **kw)
+        except Exception as e:   # noqa
+            outs.append("raised %s" % type(e).__name__)
+            continue
+        labels = sorted(l.taxon.label for l in g.leaf_node_iter())
+        outs.append((g.as_string("newick").strip(), tuple(labels)))
+    tag = "constrained_kingman_tree(%s) three calls on one population tree, seed %d" % (kw, seed)
+    if len(set(outs)) != 1:
+        return ("%s: the calls differ: leaf counts %s" % (tag, [len(o[1]) if isinstance(o, tuple) else o for o in outs]),
+                "constrained-kingman-repeated-call-differs")
+    if isinstance(outs[0], tuple) and len(set(outs[0][1])) != len(outs[0][1]):
+        return ("%s: a gene taxon label on several leaves: %s" % (tag, outs[0][1]), "constrained-kingman-leaf-per-gene")
+    return None
+
+
 def constrained_kingman_oracle(rng, seed):
     import dendropy
     from dendropy.simulate import treesim
@@ -481,6 +520,11 @@ def seeds_stage(ctx, n):
         done += 1
         if v:
             ctx.violation(v[0], {"probe": "constrained_kingman_tree", "what": v[0]}, key=v[1])
+        v = constrained_kingman_repeat_oracle(rng, rng.getrandbits(32))
+        ctx.count("seed:constrained_kingman_tree:repeat")
+        done += 1
+        if v:
+            ctx.violation(v[0], {"probe": "constrained_kingman_tree repeated", "what": v[0]}, key=v[1])
     for n_ in (0, 1, 2, 7):
         v = star_tree_oracle(n_)
         done += 1
